@@ -11,7 +11,7 @@ TECHNIQUE = ("bounded-exhaustive enumeration of device-activity multisets on an 
 RULE = ("every multiset (multiplicity<=2, min start = 0) of <=K activities with span in grid G_T (zero length "
         "allowed) x type {computation, communication}; a 4-type slice {computation, communication, memcpy, "
         "sync-on-stream} with <=K4 activities; a file slice (own files, 1 and 2 ranks, reversed file order); "
-        "each under N1 tie orders (stable, all-reversed, single-group permutations). non-trivial = idle, "
+        "history slice (different traces analysed one after the other in one process); each under N1 tie orders (stable, all-reversed, single-group permutations). non-trivial = idle, "
         "compute and non-compute parts are not all equal to 0 or the whole span")
 ASSUMPTIONS = [
     "pandas/numpy primitives are trusted; an unstable sort may return any order of rows with equal keys",
@@ -48,6 +48,9 @@ def worlds(tier: str, stats: Dict[str, Any]) -> Iterator[Any]:
         yield dict(mode="file", T=T, ranks=[[list(i) for i in ms]], ties=False)
         mir = [[T - i[1], T - i[0], i[2], i[3], i[4]] for i in ms][::-1]
         yield dict(mode="file", T=T, ranks=[[list(i) for i in ms], mir], ties=False)
+    for seq in ivworlds.history_sequences():
+        stats["transitions"] += len(seq)
+        yield dict(mode="history", seq=seq)
 
 
 _MENU = None
@@ -78,6 +81,14 @@ PCT = {"idle": "idle_time_pctg", "compute": "compute_time_pctg", "non_compute": 
 
 
 def check(world) -> Dict[str, Any]:
+    if world["mode"] == "history":
+        # the same analyses on different traces one after the other in this process: every result must still be right
+        viol, execs = [], 0
+        for k, m in enumerate(world["seq"]):
+            r = check(dict(mode="file", T=6, ranks=[[list(i) for i in ivworlds.HISTORY_FAMILY[m]]], ties=False))
+            execs += r["execs"]
+            viol += [(f"history/{s}", dict(d, position_in_history=k, history=world["seq"])) for s, d in r["viol"]]
+        return dict(viol=_dedupe(viol), nontrivial=True, outcome=("history", tuple(world["seq"])), execs=execs, extra_transitions=execs - 1)
     viol: List[Any] = []
     if world["mode"] == "menu":
         per_rank = {0: world["items"]}
